@@ -352,68 +352,7 @@ def r11_5(cx):
     cx.report('R11.5', i, 'insert', ok, 'insert() records the state when active' if ok else 'QueuedSet::insert does not insert')
 
 
-# ------------------------------------------------------------------------------------------------- R01.3
-def r01_3(cx):
-    b = cx.body(COMP + 'build_trie')
-    loops = b.loops()
-    if len(loops) < 2:
-        cx.bad('R01.3', b, 'loops', 'pattern loop / byte loop not found')
-        return
-    outer = max(loops, key=lambda h: len(loops[h]))
-    inner = [h for h in loops if h != outer and loops[h] < loops[outer]]
-    inner = max(inner, key=lambda h: len(loops[h])) if inner else None
-    if inner is None:
-        cx.bad('R01.3', b, 'loops', 'byte loop not found')
-        return
-    lf = bool_gates(b, lambda x: is_call(x, r'MatchKind::is_leftmost_first$') and tstr(x[2][0]) == 'self.builder.match_kind')
-    lf = [g for g in lf if g[0] in loops[inner]]
-    sm = b.locals_named('saw_match')
-    sg = [g for g in bool_gates(b, lambda x: is_var(x, 'saw_match')) if g[0] in loops[inner]]
-    # the saw_match gate that follows the leftmost-first gate
-    sg2 = [g for g in sg if any(g[0] in b.reach(tg, cut_blocks=[inner]) for l in lf for _, tg in l[2])]
-    growth = [bi for bi, t in b.calls(r'NFA::(alloc_state|add_transition)$') if bi in loops[inner]]
-    addm = [bi for bi, t in b.calls(r'NFA::add_match$')]
-    cut = [e for g in lf for e in g[3]] + [e for g in sg2 for e in g[3]]
-    payload = [s for s in b.succ(b.calls(r'Iterator::next$')[-1][0])] if False else None
-    ok = bool(lf) and bool(sg2) and bool(growth) and bool(addm)
-    if ok:
-        # from the byte loop header, with the pass edges removed, neither trie growth nor add_match is reachable before the next pattern
-        r = b.reach(inner, cut_edges=cut, cut_blocks=[outer])
-        # leaving the inner loop by exhaustion (pattern fully consumed) legitimately reaches add_match; only growth must be cut
-        ok = not (set(growth) & r)
-    cx.report('R01.3', b, 'prune-gate', ok, 'under leftmost-first, once a match state is on the path no state or transition is added for the rest of the pattern' if ok else 'trie growth is reachable for a pattern that has an earlier pattern as prefix under leftmost-first')
-    # the pruning edge leaves the pattern without add_match
-    okp = bool(sg2)
-    for g in sg2:
-        for _, tg in g[2]:
-            r = b.reach(tg, cut_blocks=[outer])
-            if set(addm) & r or set(growth) & r:
-                okp = False
-    cx.report('R01.3', b, 'prune-skips-pattern', okp, 'the pruned pattern is abandoned (continue to the next pattern, no add_match)' if okp else 'a pruned pattern still reaches add_match / trie growth')
-    # saw_match accumulates is_match of the state the walk is in
-    oks = False
-    if sm:
-        PREV = b.locals_named('prev')
-        defs = var_defs_terms(b, sm[0])
-        vals = []
-        for bi, si, t in defs:
-            vals.append(expand_vars(b, t, keep=('saw_match', 'prev', 'self')))
-        srcs = [v for v in vals if v != ('c', 0)]
-        def good(v):
-            if v == ('c', 1):
-                return True
-            if is_call(v, r'State::is_match$'):
-                a = peel(v[2][0])
-                return (is_call(a, r'Index::index$') and tstr(peel(a[2][0])) == 'self.nfa.states' and is_var(a[2][1], 'prev'))
-            if v[0] == 't':
-                ds = b.defs().get(v[1], [])
-                ts = [b.call_term(d[0], d[3]) if d[2] == 'call' else b.rvalue_term(d[3]['r'], 0, d[0]) for d in ds]
-                return all(good(x) for x in ts) and any(is_call(x, r'State::is_match$') for x in ts)
-            if v[0] == 'op' and v[1] == 'BitOr':
-                return any(good(x) and x != ('c', 1) for x in (v[2], v[3]))
-            return False
-        oks = any(v == ('c', 0) for v in vals) and bool(srcs) and all(good(v) for v in srcs)
-    cx.report('R01.3', b, 'saw_match', oks, 'saw_match = saw_match || states[prev].is_match(), reset per pattern' if oks else 'saw_match is not the accumulated match status of the walked states')
+from rules.trie import r01_3  # noqa: E402,F401  (build_trie rules live in rules/trie.py)
 
 
 # ------------------------------------------------------------------------------------------------- R01.4 / R04.3
